@@ -17,6 +17,7 @@ def handle (j : Json) : R (List (String × Json)) := do
   | .error _ => pure ()
   let runs ← arrF impl "runs"
   let mut bad : Array Json := #[]
+  let clustered := match (fldD j "sp" Json.null).getObjVal? "clustering" with | .ok v => !v.isNull | .error _ => false
   let mut returned := true
   let mut valid := true
   let mut gensOk := true
@@ -36,7 +37,8 @@ def handle (j : Json) : R (List (String × Json)) := do
       match parseSolution (← fld r "solution") with
       | .error _ => inexact := inexact + 1
       | .ok s =>
-        let errs := Spec.feasible p s ++ Spec.partition p s ++ Spec.replay p s
+        -- vicinity clustering (commute, parking) is outside the feasibility / replay specifications: partition only
+        let errs := if clustered then Spec.partition p s else Spec.feasible p s ++ Spec.partition p s ++ Spec.replay p s
         if !errs.isEmpty then
           valid := false
           bad := bad.push (Json.mkObj [("k", jNat k), ("violations", Json.arr (errs.take 4 |>.map Json.str).toArray)])
